@@ -30,6 +30,14 @@ def _strings(rng, n):
         out += ["".join(c) for c in itertools.product(ALPHA[:6], repeat=k)]
     for _ in range(n):
         out.append("".join(rng.choice(ALPHA) for _ in range(rng.randint(0, 40))))
+    # beyond the 64-character caching threshold of cell_len: all-ASCII (with zero-width control characters), mixed
+    ascii_ctl = ["a", "b", " ", "-", "\t", "\x1b", "\x7f", "0"]
+    for k in (64, 65, 66, 80, 130):
+        out.append("x" * k)
+        out.append("".join(ascii_ctl[(i * 7 + k) % len(ascii_ctl)] for i in range(k)))
+        out.append("".join(ALPHA[(i * 5 + k) % len(ALPHA)] for i in range(k)))
+    for _ in range(max(4, n // 50)):
+        out.append("".join(rng.choice(ascii_ctl) for _ in range(rng.randint(60, 100))))
     return out
 
 
